@@ -354,6 +354,7 @@ struct Bounds {
     /// no `new` after the first `rebase`
     phased: bool,
     max_depth: usize,
+    max_parents: usize,
 }
 
 const BASE: &str = "1\n2\n";
@@ -480,9 +481,14 @@ fn all_paths(trees: &[&MergedTree], bounds: &Bounds) -> BTreeSet<String> {
 
 type Fail = (String, String);
 
+#[derive(Clone)]
 struct St {
     nodes: Vec<Commit>,
     parents: Vec<Vec<usize>>,
+    /// order in which the current commit of each label was written (= index position order)
+    pos: Vec<u64>,
+    next_pos: u64,
+    max_parents: usize,
 }
 
 impl St {
@@ -507,10 +513,81 @@ impl St {
         }
     }
 
+    // --- Independent reference for "the merged parents' tree": the recursive merge over the
+    // parent table of this struct (never jj's index or find_recursive_merge_commits).
+
+    fn ancestors_or_self(&self, label: usize) -> BTreeSet<usize> {
+        let mut out = BTreeSet::from([ROOT, label]);
+        let mut todo = vec![label];
+        while let Some(l) = todo.pop() {
+            if l == ROOT {
+                continue;
+            }
+            for p in &self.parents[l] {
+                if out.insert(*p) {
+                    todo.push(*p);
+                }
+            }
+        }
+        out
+    }
+
+    fn position(&self, label: usize) -> u64 {
+        if label == ROOT { 0 } else { self.pos[label] }
+    }
+
+    /// Greatest common ancestors of two sets of commits, newest first.
+    fn gca(&self, set1: &[usize], set2: &[usize]) -> Vec<usize> {
+        let anc = |set: &[usize]| -> BTreeSet<usize> {
+            set.iter().flat_map(|l| self.ancestors_or_self(*l)).collect()
+        };
+        let common: BTreeSet<usize> = anc(set1).intersection(&anc(set2)).copied().collect();
+        let mut heads: Vec<usize> = common
+            .iter()
+            .copied()
+            .filter(|c| !common.iter().any(|d| d != c && self.ancestors_or_self(*d).contains(c)))
+            .collect();
+        heads.sort_by_key(|l| std::cmp::Reverse(self.position(*l)));
+        heads
+    }
+
+    /// The commits whose trees are merged for the given parents: fold left to right; the base
+    /// for the next parent is the recursive merge of the greatest common ancestors of *all
+    /// parents folded so far* and the next parent. (`pairwise` = base from the preceding
+    /// parent only; used only to count the inputs on which that difference matters.)
+    fn recursive_merge(&self, ids: &[usize], pairwise: bool) -> Merge<usize> {
+        match ids {
+            [] => Merge::resolved(ROOT),
+            [one] => Merge::resolved(*one),
+            _ => {
+                let mut result = Merge::resolved(ids[0]);
+                for pos in 1..ids.len() {
+                    let folded = if pairwise { &ids[pos - 1..pos] } else { &ids[..pos] };
+                    let base = self.recursive_merge(&self.gca(folded, &ids[pos..pos + 1]), pairwise);
+                    result = Merge::from_vec(vec![result, base, Merge::resolved(ids[pos])]).flatten();
+                }
+                result
+            }
+        }
+    }
+
+    fn merged_parents_tree(&self, mr: &MutableRepo, parents: &[usize], pairwise: bool) -> Result<MergedTree, Fail> {
+        if let [one] = parents {
+            return Ok(self.commit(mr, *one).tree());
+        }
+        let terms = self.recursive_merge(parents, pairwise).map(|l| {
+            let c = self.commit(mr, *l);
+            (c.tree(), c.conflict_label())
+        });
+        catch(|| MergedTree::merge(terms).block_on())
+            .map_err(|e| ("C08/MergedTree::merge/panic".to_string(), e))?
+            .map_err(|e| ("C08/MergedTree::merge/error".to_string(), format!("{e:?}")))
+    }
+
     fn valid_parent_set(&self, parents: &[usize]) -> bool {
         let distinct: BTreeSet<&usize> = parents.iter().collect();
         !parents.is_empty()
-            && parents.len() <= 2
+            && parents.len() <= self.max_parents
             && distinct.len() == parents.len()
             && parents.iter().all(|p| *p == ROOT || *p < self.nodes.len())
             && !(parents.len() > 1 && parents.contains(&ROOT))
@@ -541,6 +618,13 @@ struct Tally {
     roundtrip_exact: Counter,
     roundtrip_conflict_sides_reordered: Counter,
     roundtrip_conflict_other_arity: Counter,
+    octopus_parent_sets: Counter,
+    octopus_asymmetric: Counter,
+    octopus_asymmetric_changes_tree: Counter,
+    reference_same_ids_as_jj: Counter,
+    reference_other_ids_than_jj: Counter,
+    onto_octopus: Counter,
+    from_octopus: Counter,
 }
 
 struct Checker<'a> {
@@ -563,17 +647,47 @@ impl Checker<'_> {
         self.ctx.violation(sig, msg, self.case());
     }
 
-    fn parents_tree(&self, mr: &MutableRepo, commit: &Commit) -> Result<MergedTree, Fail> {
-        let parents = commit.parents().block_on().map_err(|e| ("C08/error".to_string(), format!("{e:?}")))?;
-        catch(|| merge_commit_trees(mr, &parents).block_on())
-            .map_err(|e| ("C08/merge_commit_trees/panic".to_string(), e))?
-            .map_err(|e| ("C08/merge_commit_trees/error".to_string(), format!("{e:?}")))
+    /// The merged parents' tree of `commit`, whose parents are the labels `parents` in graph
+    /// `g`, by the independent recursive-merge reference.
+    fn parents_tree(&self, mr: &MutableRepo, g: &St, parents: &[usize], commit: &Commit) -> Result<MergedTree, Fail> {
+        let ids: Vec<CommitId> = parents.iter().map(|p| g.commit(mr, *p).id().clone()).collect();
+        if ids != commit.parent_ids() {
+            machinery_failure("the parent table of the reference graph is out of step with the repository");
+        }
+        let tree = g.merged_parents_tree(mr, parents, false)?;
+        if parents.len() >= 3 {
+            self.tally.octopus_parent_sets.inc();
+            if g.recursive_merge(parents, false) != g.recursive_merge(parents, true) {
+                self.tally.octopus_asymmetric.inc();
+                if g.merged_parents_tree(mr, parents, true)?.tree_ids() != tree.tree_ids() {
+                    self.tally.octopus_asymmetric_changes_tree.inc();
+                }
+            }
+        }
+        // how often jj's own merge_commit_trees returns the very same tree ids (not an oracle)
+        if parents.len() > 1 {
+            let jj_parents: Vec<Commit> = parents.iter().map(|p| g.commit(mr, *p)).collect();
+            match catch(|| merge_commit_trees(mr, &jj_parents).block_on()) {
+                Ok(Ok(t)) if t.tree_ids() == tree.tree_ids() => self.tally.reference_same_ids_as_jj.inc(),
+                _ => self.tally.reference_other_ids_than_jj.inc(),
+            }
+        }
+        Ok(tree)
     }
 
     /// Clauses (1) and (2) for one rebased commit.
-    fn check_rebased(&self, mr: &MutableRepo, what: &str, old: &Commit, new: &Commit) -> Result<(), Fail> {
-        let o = self.parents_tree(mr, old)?;
-        let n = self.parents_tree(mr, new)?;
+    #[allow(clippy::too_many_arguments)]
+    fn check_rebased(
+        &self,
+        mr: &MutableRepo,
+        what: &str,
+        old: &Commit,
+        (g_old, old_parents): (&St, &[usize]),
+        new: &Commit,
+        (g_new, new_parents): (&St, &[usize]),
+    ) -> Result<(), Fail> {
+        let o = self.parents_tree(mr, g_old, old_parents, old)?;
+        let n = self.parents_tree(mr, g_new, new_parents, new)?;
         let t = old.tree();
         let t2 = new.tree();
         self.tally.commits_rebased.inc();
@@ -594,6 +708,12 @@ impl Checker<'_> {
         }
         if old.parent_ids().len() > 1 {
             self.tally.from_merge.inc();
+        }
+        if new.parent_ids().len() > 2 {
+            self.tally.onto_octopus.inc();
+        }
+        if old.parent_ids().len() > 2 {
+            self.tally.from_octopus.inc();
         }
         if new.parent_ids() == [mr.store().root_commit_id().clone()] {
             self.tally.onto_root.inc();
@@ -714,6 +834,8 @@ fn apply(
                 .map_err(|e| ("C08/new/error".to_string(), format!("{e:?}")))?;
             st.nodes.push(commit);
             st.parents.push(parents.clone());
+            st.next_pos += 1;
+            st.pos.push(st.next_pos);
             Ok(true)
         }
         Act::Rebase { x, parents } => {
@@ -724,11 +846,13 @@ fn apply(
             if parents.iter().any(|p| below.contains(p)) {
                 return Ok(false);
             }
+            let before_graph: St = st.clone();
             let before: Vec<Commit> = st.nodes.clone();
             let old = before[*x].clone();
             let new_parent_ids: Vec<CommitId> = parents.iter().map(|p| st.commit(mr, *p).id().clone()).collect();
             let new_x = do_rebase(mr, &old, new_parent_ids, t)?;
             let mut mapping: HashMap<CommitId, CommitId> = HashMap::new();
+            let mut written_order: Vec<CommitId> = vec![];
             catch(|| {
                 mr.rebase_descendants_with_options(
                     &RevsetExpression::none(),
@@ -738,6 +862,7 @@ fn apply(
                             RebasedCommit::Rewritten(c) => c.id().clone(),
                             RebasedCommit::Abandoned { parent_id } => parent_id,
                         };
+                        written_order.push(old_commit.id().clone());
                         mapping.insert(old_commit.id().clone(), new_id);
                     },
                 )
@@ -747,6 +872,14 @@ fn apply(
             .map_err(|e| ("C08/rebase_descendants/error".to_string(), format!("{e:?}")))?;
             st.nodes[*x] = new_x;
             st.parents[*x] = parents.clone();
+            st.next_pos += 1;
+            st.pos[*x] = st.next_pos;
+            for old_id in &written_order {
+                if let Some(i) = before.iter().position(|c| c.id() == old_id) {
+                    st.next_pos += 1;
+                    st.pos[i] = st.next_pos;
+                }
+            }
             for (i, c) in before.iter().enumerate() {
                 if let Some(new_id) = mapping.get(c.id()) {
                     if i == *x {
@@ -767,7 +900,14 @@ fn apply(
                             machinery_failure("a commit that is not a descendant was rewritten");
                         }
                     }
-                    ck.check_rebased(mr, if i == *x { "rebase" } else { "descendant" }, c, &st.nodes[i])?;
+                    ck.check_rebased(
+                        mr,
+                        if i == *x { "rebase" } else { "descendant" },
+                        c,
+                        (&before_graph, &before_graph.parents[i]),
+                        &st.nodes[i],
+                        (&*st, &st.parents[i]),
+                    )?;
                 }
                 // (3) same parents: same tree, id for id
                 if st.nodes[*x].parent_ids() == old.parent_ids() {
@@ -787,12 +927,23 @@ fn apply(
 
 /// Clause (4), evaluated after the state key was taken (it adds a commit to the scratch
 /// transaction): rebase the just-rebased commit back onto its previous parents.
-fn check_roundtrip(mr: &mut MutableRepo, ck: &Checker, old: &Commit, moved: &Commit, t: usize) -> Result<(), Fail> {
+fn check_roundtrip(
+    mr: &mut MutableRepo,
+    ck: &Checker,
+    st: &St,
+    old: &Commit,
+    old_parents: &[usize],
+    moved: &Commit,
+    new_parents: &[usize],
+    t: usize,
+) -> Result<(), Fail> {
     if moved.parent_ids() == old.parent_ids() {
         return Ok(());
     }
-    let o1 = ck.parents_tree(mr, old)?;
-    let o2 = ck.parents_tree(mr, moved)?;
+    // (the old parents are not descendants of the rebased commit, so they and their ancestors
+    // are the same commits in the graph after the rebase)
+    let o1 = ck.parents_tree(mr, st, old_parents, old)?;
+    let o2 = ck.parents_tree(mr, st, new_parents, moved)?;
     let tree = old.tree();
     let mut overlap = vec![];
     for p in all_paths(&[&o1, &o2, &tree], ck.bounds) {
@@ -807,7 +958,7 @@ fn check_roundtrip(mr: &mut MutableRepo, ck: &Checker, old: &Commit, moved: &Com
     }
     let back = do_rebase(mr, moved, old.parent_ids().to_vec(), t)?;
     // the way back is a rebase like any other
-    ck.check_rebased(mr, "rebase-back", moved, &back)?;
+    ck.check_rebased(mr, "rebase-back", moved, (st, new_parents), &back, (st, old_parents))?;
     if !overlap.is_empty() {
         ck.tally.roundtrip_overlapping.inc();
         return Ok(());
@@ -920,13 +1071,13 @@ fn step(
     let w = world(ctx.scratch(), sc);
     let mut tx = w.repo.start_transaction();
     let mr = tx.repo_mut();
-    let mut st = St { nodes: vec![], parents: vec![] };
+    let mut st = St { nodes: vec![], parents: vec![], pos: vec![], next_pos: 0, max_parents: bounds.max_parents };
     let checker = Checker { ctx, tally, bounds, sc: w.sc, history };
-    let mut before_last: Vec<Commit> = vec![];
+    let mut before_last: Option<St> = None;
     for (i, act) in history.iter().enumerate() {
         let last = i + 1 == history.len();
         if last {
-            before_last = st.nodes.clone();
+            before_last = Some(st.clone());
         }
         match apply(mr, &mut st, act, i, last.then_some(&checker)) {
             Ok(true) => {}
@@ -943,13 +1094,124 @@ fn step(
     let key = state_key(&st, bounds, history);
     let actions = enabled(&st, bounds, history);
     if let Some(Act::Rebase { x, .. }) = history.last() {
-        let old = before_last[*x].clone();
+        let before = before_last.unwrap();
+        let old = before.nodes[*x].clone();
         let moved = st.nodes[*x].clone();
-        if let Err((sig, msg)) = check_roundtrip(mr, &checker, &old, &moved, history.len()) {
+        if let Err((sig, msg)) =
+            check_roundtrip(mr, &checker, &st, &old, &before.parents[*x], &moved, &st.parents[*x], history.len())
+        {
             checker.violation(&sig, msg);
         }
     }
     Some(StepResult { key, actions })
+}
+
+// ---------------------------------------------------------------------------------------
+// Merges of three parents with asymmetric ancestry (not reachable within the depth of the
+// searches): every forest of `k` single-parent commits x every edit per commit, then
+//   (onto)  a further commit x = new([px], ex), rebased onto every ordered triple of the k commits;
+//   (from)  a further commit x = new(triple, ex) for every ordered triple, rebased onto the root
+// each followed by the way back (clause 4), judged by the same clauses as the searches.
+
+struct OctopusFamily {
+    name: &'static str,
+    sc: SameChange,
+    k: usize,
+    graph_edits: Vec<Edit>,
+    /// (parent, edit) of the commit that is rebased onto the triples
+    x_variants: Vec<(usize, Edit)>,
+    /// edits of the three-parent commit that is rebased away
+    merge_edits: Vec<Edit>,
+}
+
+fn set(path: &str, content: Option<&str>) -> Edit {
+    Edit::Set { path: path.to_string(), content: content.map(|c| c.to_string()) }
+}
+
+fn ordered_triples(k: usize) -> Vec<Vec<usize>> {
+    let mut out = vec![];
+    for a in 0..k {
+        for b in 0..k {
+            for c in 0..k {
+                if a != b && a != c && b != c {
+                    out.push(vec![a, b, c]);
+                }
+            }
+        }
+    }
+    out
+}
+
+/// Returns (histories executed, histories with an action that is not enabled).
+fn run_octopus_family(ctx: &Ctx, tally: &Tally, fam: &OctopusFamily) -> (u64, u64, u64) {
+    use rayon::prelude::*;
+    let bounds = Bounds {
+        paths: vec!["p", "q"],
+        contents: vec![BASE, LEFT, RIGHT],
+        max_commits: usize::MAX,
+        phased: false,
+        max_depth: fam.k + 2,
+        max_parents: 3,
+    };
+    // graph index = (parent choice per commit, edit per commit)
+    let parent_choices: usize = (1..=fam.k).product();
+    let e = fam.graph_edits.len();
+    let graphs = parent_choices * e.pow(fam.k as u32);
+    let triples = ordered_triples(fam.k);
+    let executed = Counter::new();
+    let skipped = Counter::new();
+    (0..graphs).into_par_iter().for_each(|gi| {
+        let mut rest = gi;
+        let mut graph: Vec<Act> = vec![];
+        for i in 0..fam.k {
+            let choice = rest % (i + 1);
+            rest /= i + 1;
+            let parent = if choice == 0 { ROOT } else { choice - 1 };
+            graph.push(Act::New { parents: vec![parent], edit: Edit::Noop });
+        }
+        for i in 0..fam.k {
+            let edit = fam.graph_edits[rest % e].clone();
+            rest /= e;
+            if let Act::New { edit: slot, .. } = &mut graph[i] {
+                *slot = edit;
+            }
+        }
+        let run = |history: Vec<Act>| -> bool {
+            match step(ctx, tally, &bounds, fam.sc, &history) {
+                Some(_) => {
+                    executed.inc();
+                    true
+                }
+                None => {
+                    skipped.inc();
+                    false
+                }
+            }
+        };
+        // an edit that changes nothing makes the graph a duplicate of the one with Noop there
+        let mut first = true;
+        for (px, ex) in &fam.x_variants {
+            for triple in &triples {
+                let mut h = graph.clone();
+                h.push(Act::New { parents: vec![*px], edit: ex.clone() });
+                h.push(Act::Rebase { x: fam.k, parents: triple.clone() });
+                let ok = run(h);
+                if first && !ok {
+                    return;
+                }
+                first = false;
+            }
+        }
+        for ex in &fam.merge_edits {
+            for triple in &triples {
+                let mut h = graph.clone();
+                h.push(Act::New { parents: triple.clone(), edit: ex.clone() });
+                h.push(Act::Rebase { x: fam.k, parents: vec![ROOT] });
+                run(h);
+            }
+        }
+    });
+    (graphs as u64, executed.get(), skipped.get())
 }
 
 fn act_label(a: &Act) -> String {
@@ -983,6 +1245,7 @@ fn main() {
             max_commits: usize::MAX,
             phased: false,
             max_depth: history.len(),
+            max_parents: 3,
         };
         if step(&ctx, &tally, &bounds, sc, &history).is_none() && ctx.violation_count() == 0 {
             machinery_failure("the recorded history is not executable");
@@ -1001,12 +1264,12 @@ fn main() {
         max_commits,
         phased,
         max_depth,
+        max_parents: 2,
     };
     let searches: Vec<(&str, SameChange, Bounds)> = if ctx.quick() {
         vec![
             ("free", SameChange::Accept, b(&["p", "q"], &[BASE, LEFT, RIGHT], 4, false, 4)),
-            ("free-deeper", SameChange::Accept, b(&["p"], &[BASE, LEFT], 4, false, 5)),
-            ("phased", SameChange::Accept, b(&["p", "q"], &[BASE, LEFT], 3, true, 5)),
+            ("free-deeper", SameChange::Accept, b(&["p", "q"], &[BASE, LEFT], 3, false, 5)),
             ("free-keep", SameChange::Keep, b(&["p", "q"], &[BASE, LEFT, RIGHT], 4, false, 4)),
         ]
     } else {
@@ -1029,7 +1292,9 @@ fn main() {
             max_states: 50_000_000,
             max_wall_s: ctx.pick(50.0, 330.0),
         };
+        let started = ctx.elapsed_s();
         let stats = bfs::search(&cfg, |h: &[Act]| step(&ctx, &tally, bounds, *sc, h), act_label);
+        eprintln!("search {name}: {} transitions in {:.1}s", stats.transitions, ctx.elapsed_s() - started);
         states += stats.states;
         transitions += stats.transitions;
         if stats.capped {
@@ -1060,6 +1325,77 @@ fn main() {
             }),
         );
     }
+    // Three-parent merges.
+    let small = vec![Edit::Noop, set("p", Some(BASE)), set("p", Some(LEFT))];
+    let families: Vec<OctopusFamily> = if ctx.quick() {
+        vec![OctopusFamily {
+            name: "octopus-4",
+            sc: SameChange::Accept,
+            k: 4,
+            graph_edits: small.clone(),
+            x_variants: vec![(ROOT, set("q", Some(BASE)))],
+            merge_edits: vec![set("q", Some(BASE))],
+        }]
+    } else {
+        vec![
+            OctopusFamily {
+                name: "octopus-4",
+                sc: SameChange::Accept,
+                k: 4,
+                graph_edits: vec![
+                    Edit::Noop,
+                    set("p", Some(BASE)),
+                    set("p", Some(LEFT)),
+                    set("p", Some(RIGHT)),
+                    set("p", None),
+                    set("q", Some(LEFT)),
+                ],
+                x_variants: vec![
+                    (ROOT, set("q", Some(BASE))),
+                    (ROOT, Edit::Noop),
+                    (3, set("q", Some(BASE))),
+                    (3, set("p", Some(RIGHT))),
+                ],
+                merge_edits: vec![set("q", Some(BASE)), Edit::Noop],
+            },
+            OctopusFamily {
+                name: "octopus-4-keep",
+                sc: SameChange::Keep,
+                k: 4,
+                graph_edits: small.clone(),
+                x_variants: vec![(ROOT, set("q", Some(BASE)))],
+                merge_edits: vec![set("q", Some(BASE))],
+            },
+            OctopusFamily {
+                name: "octopus-5",
+                sc: SameChange::Accept,
+                k: 5,
+                graph_edits: small.clone(),
+                x_variants: vec![(ROOT, set("q", Some(BASE)))],
+                merge_edits: vec![],
+            },
+        ]
+    };
+    for fam in &families {
+        let started = ctx.elapsed_s();
+        let (graphs, executed, skipped) = run_octopus_family(&ctx, &tally, fam);
+        eprintln!("family {}: {executed} histories in {:.1}s", fam.name, ctx.elapsed_s() - started);
+        transitions += executed;
+        extra.insert(
+            format!("family_{}", fam.name),
+            json!({
+                "same_change": sc_name(fam.sc),
+                "single_parent_commits": fam.k,
+                "graph_edits": fam.graph_edits.iter().map(|e| format!("{e:?}")).collect::<Vec<_>>(),
+                "rebased_commit_variants": fam.x_variants.iter().map(|(p, e)| json!({"parent": label_json(*p), "edit": format!("{e:?}")})).collect::<Vec<_>>(),
+                "three_parent_commit_edits": fam.merge_edits.iter().map(|e| format!("{e:?}")).collect::<Vec<_>>(),
+                "graph_indices": graphs,
+                "ordered_triples": ordered_triples(fam.k).len(),
+                "histories_executed": executed,
+                "histories_skipped_duplicate_of_no_edit": skipped,
+            }),
+        );
+    }
     let t = &tally;
     let counters = json!({
         "rebase_transitions": t.rebase_transitions.get(),
@@ -1084,6 +1420,13 @@ fn main() {
         "from_merge_parents": t.from_merge.get(),
         "onto_root": t.onto_root.get(),
         "paths_resolved_to_newly_merged_content": t.content_merged_paths.get(),
+        "onto_three_parents": t.onto_octopus.get(),
+        "from_three_parents": t.from_octopus.get(),
+        "three_parent_sets_evaluated": t.octopus_parent_sets.get(),
+        "of_which_asymmetric_ancestry": t.octopus_asymmetric.get(),
+        "of_which_a_pairwise_merge_base_would_change_the_tree": t.octopus_asymmetric_changes_tree.get(),
+        "merged_parents_reference_same_ids_as_merge_commit_trees": t.reference_same_ids_as_jj.get(),
+        "merged_parents_reference_other_ids_than_merge_commit_trees": t.reference_other_ids_than_jj.get(),
     });
     if ctx.violation_count() == 0 {
         for (what, c) in [
@@ -1097,6 +1440,9 @@ fn main() {
             ("rebases onto merge parents", &t.onto_merge),
             ("rebases onto the root", &t.onto_root),
             ("rebased descendants", &t.descendants_rebased),
+            ("rebases onto three parents", &t.onto_octopus),
+            ("rebases of three-parent merges", &t.from_octopus),
+            ("three-parent sets on which a pairwise merge base would change the tree", &t.octopus_asymmetric_changes_tree),
         ] {
             if c.get() == 0 {
                 machinery_failure(&format!("vacuous: no {what}"));
